@@ -447,6 +447,7 @@ def classifier_threads(ctx, viol, tier, rng):
 
         progs = [[lambda f_: f_(ea)], [lambda f_: f_(eb)]]
         prefix, n = [], 0
+        deep = sched.Deepening(2, limit)
         while True:
             r = sched.run_schedule(make, progs, prefix=prefix)
             s_ = r["sched"]
@@ -465,8 +466,8 @@ def classifier_threads(ctx, viol, tier, rng):
                 viol("classifier-answer-depends-on-another-thread", f"{fname}: alone -> {[w.name for w in want]}; two threads at once (first use of the module in the process) -> {[g and g.name for g in got]}, "
                      f"asked again afterwards -> {later and [g.name for g in later]}; errors {r['errors']}; {case}; schedule {key}", dict(case, schedule=key))
                 break
-            nxt = sched.next_prefix(s_.trace, 2)
-            if nxt is None or n >= limit:
+            nxt = deep.next(s_.trace)
+            if nxt is None:
                 break
             prefix = nxt
         ctx.cnt["classifier_thread_pairs"] += 1
